@@ -29,6 +29,11 @@ EXTRA = [
     ops.Op("set_many", {"a": b"1", b"a": b"2"}, noreply=False),
     ops.Op("delete_many", ["a", b"a"], noreply=False),
     ops.Op("get_many", ["a", b"a", "b"]),
+    # shutdown's other form (the reference server has the command disabled and answers with an error line)
+    ops.Op("shutdown", graceful=True),
+    # a cas token that is not a number must not reach the wire (it would change how many replies come back)
+    ops.Op("cas", "a", b"9", b"1 noreply", noreply=False),
+    ops.Op("cas", "a", b"9", b"12\r\n", noreply=True),
 ]
 
 
